@@ -41,6 +41,12 @@ ApproxRoundTrip(vals, out, lgScale, lgN, prec) ==
          /\ Abs(out[i][1] - vals[i][1]) <= Tol(vals[i][1], lgScale, lgN, prec)
          /\ Abs(out[i][2] - vals[i][2]) <= Tol(vals[i][2], lgScale, lgN, prec)
 
+\* quantisation of a single slot (values in units of 2^-20, scale 2^lgScale <= 2^20): the two coefficients of the plaintext
+\* polynomial are the real and the imaginary part times the scale, rounded to an integer: off by at most half a unit
+QuantOK(re, im, lgScale, c0, c1) ==
+    /\ 2 * Abs(c0 * Pow2(20 - lgScale) - re) <= Pow2(20 - lgScale)
+    /\ 2 * Abs(c1 * Pow2(20 - lgScale) - im) <= Pow2(20 - lgScale)
+
 \* public decoding with logprec <= 20: every part is a multiple of 2^-logprec and within tolerance + half a step
 PublicRoundTrip(vals, out, lgScale, lgN, prec, logprec) ==
     /\ Len(out) = Len(vals)
